@@ -282,6 +282,20 @@ def _permuted_items(stream, items, op):
 
 # ---- module-level (global stream) API -------------------------------------
 
+def get_state(legacy=True):
+    """snapshot of the global stream (state term and draw counter)"""
+    return ('symstate', GLOBAL.state, GLOBAL.k)
+
+
+def set_state(st):
+    global GLOBAL
+    if not (isinstance(st, tuple) and len(st) == 3 and st[0] == 'symstate'):
+        np._unsupported("numpy.random.set_state with a foreign state")
+    GLOBAL = _Stream(st[1], 'global')
+    GLOBAL.k = st[2]
+    LOG.append(dict(stream='global', op='seed', seed=None))
+
+
 def normal(loc=0.0, scale=1.0, size=None):
     return _normal(GLOBAL, loc, scale, size)
 
